@@ -55,6 +55,20 @@ class Obj(object):
             self.q = self.q + 1
             return x - self.p
         return self.p - x
+class LI(object):
+    def __init__(self, tag, seq):
+        self.tag = tag
+        self.it = iter(list(seq))
+    def __iter__(self):
+        return self
+    def __next__(self):
+        try:
+            v = next(self.it)
+        except StopIteration:
+            LOG.append(('next', self.tag, 'stop'))
+            raise
+        LOG.append(('next', self.tag, _r(v)))
+        return v
 class E1(Exception):
     pass
 class E2(Exception):
@@ -547,8 +561,12 @@ class Gen(object):
     j = join(branches, blk)
     blk.defined, blk.maybe, blk.dead = j.defined, j.maybe, j.dead
 
-  def _directive(self, fc, ind, marker):
-    if not self.p.use_directives or not self.chance(0.3):
+  def _directive(self, fc, ind, marker, ambiguous=False):
+    self.meta.setdefault('loops', []).append(marker)
+    if ambiguous:
+      self.meta.setdefault('ambiguous', []).append(marker)
+      return
+    if not self.p.use_directives or not self.chance(0.35):
       return
     kws = []
     if self.chance(0.6):
@@ -636,13 +654,17 @@ class Gen(object):
       hdr = self.rng.choice(['for %s, %s in enumerate(xs):', 'for (%s, %s) in zip(xs, range(5)):']) % (t1, t2)
       tg = [t1, t2]
       it_list = 'xs'
-    else:
+    elif r < 0.95 or self.p.pure:
       t = tgt()
       hdr = 'for %s in iter(xs):' % t
       tg = [t]
       it_list = 'xs'
+    else:
+      t = tgt()
+      hdr = 'for %s in LI(%r, xs):' % (t, self.newtag())
+      tg = [t]
     self.emit(ind, hdr)
-    self._directive(fc, ind + 1, ' '.join(tg))
+    self._directive(fc, ind + 1, ' '.join(tg), ambiguous=reuse)
     body.defined.update(tg)
     fc.loop_depth += 1
     if it_list:
